@@ -465,6 +465,21 @@ def run(chk):
                 lcases.append((name, tmpl.format(a=lit(a)), f"int {name} {a}", orc(a), (a,)))
             else:
                 lcases.append((name, tmpl.format(a=lit(a), b=lit(b)), f"int {name} {a} {b}", orc(a, b), (a, b)))
+    # regression corpus: the witness of every defect fixed in /repo for this property (always run)
+    big33 = int("1" + "0" * 32, 16)
+    for expr, want in [
+        ("1 - 2**64", o_int(1 - 2**64)), ("binom(70, 35)", o_int(math.comb(70, 35))), ("multinom([30, 20, 13])", o_int(math.factorial(63) // (math.factorial(30) * math.factorial(20) * math.factorial(13)))),
+        ("2**63 * (-1)", o_int(-2**63)), ("div_floor(-(2**63), -1)", o_int(2**63)), ("div_ceil(-(2**63), -1)", o_int(2**63)),
+        ("1 / 2**80", fhex(1 / 2**80)), ("div_floor(1, 2**80)", o_int(0)), ("(-7) % 3", o_int(2)), ("7 % (-3)", o_int(-2)),
+        ("digits(5, 1)", ERR), ("digits(5, 0)", ERR), ('format(-(2**63), "x")', dump_str("-8000000000000000")),
+        ("1 ** 2**40", o_int(1)), ("(2**64)**0 == 1", o_bool(True)), ("to_float(10**400)", ERR),
+        ("170141183460469231731687303715884105728", o_int(2**127)), ("0x1" + "0" * 32, o_int(big33)),
+        ("lcm(2**63+1, 2**65-1)", o_int((2**63 + 1) * (2**65 - 1) // math.gcd(2**63 + 1, 2**65 - 1))),
+        ('to_int("' + "1" * 40 + '_1")', ERR), ('to_int("1_1")', ERR),
+        ("floor_root(1)", o_int(1)), ("floor_root(5, 1)", o_int(5)), ("ceil_root(2)", o_int(2)),
+        ("to_float(2**64 + 2049)", fhex(float(2**64 + 2049))), ("9007199254740995 / 7", fhex(9007199254740995 / 7)),
+    ]:
+        lcases.append(("regress", expr, None, want, ()))
     # pow with guards
     for _ in range(n):
         a = rng.choice(pool)
